@@ -6,6 +6,7 @@ import (
 	"math/rand"
 	"os"
 	"path/filepath"
+	"reflect"
 	"strings"
 
 	"github.com/TimothyStiles/poly"
@@ -230,6 +231,11 @@ func c03Record(w *mon.W, id string, x poly.Sequence, origin string, tmp string, 
 	if len(c03Kept) >= 3 {
 		c03Kept, c03KeptCopy = c03Kept[1:], c03KeptCopy[1:]
 	}
+	// the record as it was before any library call saw it: everything written is judged against this copy
+	x0 := deepCopy(reflect.ValueOf(x)).Interface().(poly.Sequence)
+	for i := range x0.Features {
+		x0.Features[i].ParentSequence = &x0
+	}
 	var first []byte
 	var p string
 	// determinism: 20 builds
@@ -267,7 +273,7 @@ func c03Record(w *mon.W, id string, x poly.Sequence, origin string, tmp string, 
 	rep["built"] = clip(string(first), 6000)
 	c03Kept, c03KeptCopy = append(c03Kept, first), append(c03KeptCopy, string(first))
 	if len(distinct) > 1 {
-		w.Violation(id, fmt.Sprintf("genbank.Build wrote %d different texts in 20 calls on the same record (%s; %d features, %d extra keyword blocks)", len(distinct), origin, len(x.Features), len(x.Meta.Other)), rep)
+		w.Violation(id, fmt.Sprintf("genbank.Build wrote %d different texts in 20 calls on the same record (%s; %d features, %d extra keyword blocks)", len(distinct), origin, len(x0.Features), len(x.Meta.Other)), rep)
 	}
 	// round trip through poly's own parser
 	var y poly.Sequence
@@ -286,7 +292,7 @@ func c03Record(w *mon.W, id string, x poly.Sequence, origin string, tmp string, 
 		w.Violation(id, fmt.Sprintf("parsing the text genbank.Build wrote (%s): %s", origin, p), rep)
 	} else {
 		w.Add("records_round_tripped", 1)
-		if d := compareRoundTrip(x, y); len(d) > 0 {
+		if d := compareRoundTrip(x0, y); len(d) > 0 {
 			w.Violation(id, fmt.Sprintf("Parse(Build(x)) != x (%s): %s", origin, joinDiffs(d, 4)), rep)
 		}
 	}
@@ -297,15 +303,15 @@ func c03Record(w *mon.W, id string, x poly.Sequence, origin string, tmp string, 
 		w.Violation(id, fmt.Sprintf("the harness's column-based GenBank reader cannot read genbank.Build's output (%s): %v (%d records)", origin, err, len(recs)), rep)
 		return
 	}
-	want := abstractOf(x)
+	want := abstractOf(x0)
 	got := recs[0]
 	// locations are compared semantically, everything else by DiffGB
 	k2 := false
 	for i := range got.Features {
-		if i >= len(x.Features) {
+		if i >= len(x0.Features) {
 			break
 		}
-		wantLeaves := fromStruct(x.Features[i].SequenceLocation).Normalize()
+		wantLeaves := fromStruct(x0.Features[i].SequenceLocation).Normalize()
 		text := got.Features[i].LocText
 		lc, e := oracle.ParseLocStrict(text)
 		if e != nil {
@@ -316,7 +322,7 @@ func c03Record(w *mon.W, id string, x poly.Sequence, origin string, tmp string, 
 				w.Violation(id, fmt.Sprintf("feature %d: written location %q is not valid INSDC syntax: %v (%s)", i, clip(text, 100), e, origin), rep)
 			}
 		} else if !oracle.SameLeaves(lc.Normalize(), wantLeaves) {
-			w.Violation(id, fmt.Sprintf("feature %d: written location %q denotes something else than %s (%s)", i, clip(text, 100), clip(fromStruct(x.Features[i].SequenceLocation).String(), 100), origin), rep)
+			w.Violation(id, fmt.Sprintf("feature %d: written location %q denotes something else than %s (%s)", i, clip(text, 100), clip(fromStruct(x0.Features[i].SequenceLocation).String(), 100), origin), rep)
 		}
 		got.Features[i].LocText, got.Features[i].Loc = "", nil
 	}
